@@ -9,7 +9,3 @@ NEXT CNext
 CONSTRAINT Progress
 POSTCONDITION Accept
 CHECK_DEADLOCK FALSE
-INVARIANT P_NoLeak
-INVARIANT P_StubOnly
-INVARIANT P_NoExistenceLeak
-INVARIANT P_Available
